@@ -15,7 +15,7 @@ pub mod wc {
 
     ecs_world! {
         ecs_name!(WC);
-        ecs_archetype!(C0, KA, #[cfg(any())] KZ, #[cfg(all())] KB);   // KZ disabled: {KA=0, KB=1}
+        ecs_archetype!(C0, KA, #[cfg(any())] KZ, #[cfg(not(any()))] KB);   // KZ disabled: {KA=0, KB=1}
         #[cfg(any())]
         ecs_archetype!(CGone, KA, KZ);                                 // disabled: consumes no id
         #[cfg(all())]
@@ -76,5 +76,71 @@ pub fn query_cfg_params() {
     std::mem::forget(world);
 }
 
+/// Several DISTINCT predicates with different truth values in one query, in both orders, with a
+/// repeated predicate, through all five query macros (the generated `__cfg_ecs_*` chain hands
+/// the truth values to the binding logic in first-appearance order).
+pub fn query_cfg_mixed_predicates() {
+    let n0 = sym::any_usize();
+    let n1 = sym::any_usize();
+    sym::assume(n0 <= 2 && n1 <= 2);
+    let mut world = WC::with_capacity(WCCapacity { c_0: 2, c_1: 2 });
+    let mut i = 0;
+    while i < 2 {
+        if i < n0 { world.create::<C0>((KA(i as u8), KB(10 + i as u8))); }
+        if i < n1 { world.create::<C1>((KB(20 + i as u8),)); }
+        i += 1;
+    }
+    // true then false: KA restricts to C0, KZ is absent
+    let mut a = 0;
+    ecs_iter!(world, |#[cfg(all())] ka: &KA, #[cfg(any())] z: &KZ, kb: &KB| { assert!(kb.0 == 10 + ka.0); a += 1; });
+    assert!(a == n0, "two predicates (true, false): truth values mixed up");
+    // false then true
+    let mut b = 0;
+    ecs_iter_borrow!(world, |#[cfg(any())] z: &KZ, #[cfg(all())] ka: &KA, kb: &KB| { assert!(kb.0 == 10 + ka.0); b += 1; });
+    assert!(b == n0, "two predicates (false, true): truth values mixed up");
+    // three distinct predicates: not(any()) = true, any() = false, all() = true; one repeated
+    let mut c = 0;
+    ecs_iter!(world, |#[cfg(not(any()))] kb: &KB, #[cfg(any())] e: &Entity<C0>, #[cfg(all())] x: &EntityAny, #[cfg(any())] z: &KZ| { assert!(kb.0 >= 10); c += 1; });
+    assert!(c == n0 + n1, "three predicates: a disabled Entity<A> parameter restricted the match or an enabled one was dropped");
+    // disabled typed-entity parameter + enabled component, through find / find_borrow / iter_destroy
+    if n1 > 0 {
+        let h = world.c_1.entities()[0];
+        let r = ecs_find!(world, h, |#[cfg(any())] e: &Entity<C0>, #[cfg(not(any()))] kb: &KB| kb.0);
+        assert!(r == Some(20), "ecs_find! with mixed predicates");
+        let r2 = ecs_find_borrow!(world, h.into_any(), |#[cfg(all())] kb: &KB, #[cfg(not(all()))] ka: &KA| kb.0);
+        assert!(r2 == Some(20), "ecs_find_borrow! with mixed predicates");
+    }
+    let mut d = 0;
+    ecs_iter_destroy!(world, |#[cfg(any())] e: &Entity<C1>, #[cfg(all())] kb: &KB| { d += 1; EcsStepDestroy::ContinueDestroy });
+    assert!(d == n0 + n1 && world.c_0.len() == 0 && world.c_1.len() == 0, "ecs_iter_destroy! with a cfg-disabled Entity<A> parameter skipped an archetype");
+    cover!(n0 == 2 && n1 == 1, "both archetypes populated");
+    std::mem::forget(world);
+}
+
+/// ecs_iter_destroy! with a cfg-disabled COMPONENT parameter that only one archetype has.
+pub fn iter_destroy_cfg_component() {
+    let n0 = sym::any_usize();
+    let n1 = sym::any_usize();
+    sym::assume(n0 <= 2 && n1 <= 2);
+    let mut world = WC::with_capacity(WCCapacity { c_0: 2, c_1: 2 });
+    let mut i = 0;
+    while i < 2 {
+        if i < n0 { world.create::<C0>((KA(i as u8), KB(10 + i as u8))); }
+        if i < n1 { world.create::<C1>((KB(20 + i as u8),)); }
+        i += 1;
+    }
+    let mut d = 0;
+    ecs_iter_destroy!(world, |kb: &KB, #[cfg(any())] ka: &KA| {
+        d += 1;
+        if kb.0 >= 20 { EcsStepDestroy::ContinueDestroy } else { EcsStepDestroy::Continue }
+    });
+    assert!(d == n0 + n1, "ecs_iter_destroy!: a cfg-disabled component parameter restricted the match");
+    assert!(world.c_0.len() == n0 && world.c_1.len() == 0, "ecs_iter_destroy! destroyed other entities than the flagged ones");
+    cover!(n0 == 1 && n1 == 2, "both archetypes populated");
+    std::mem::forget(world);
+}
+
 harness! { fn c16_decl_cfg_items() unwind(4) { decl_cfg_items() } }
+harness! { fn c16_query_cfg_mixed_predicates() unwind(4) { query_cfg_mixed_predicates() } }
+harness! { fn c16_iter_destroy_cfg_component() unwind(4) { iter_destroy_cfg_component() } }
 harness! { fn c16_query_cfg_params() unwind(4) { query_cfg_params() } }
